@@ -1,7 +1,7 @@
 #!/bin/sh
 # run every quick check once; print one line per property
 cd /verif
-for p in C01 C02 C03 C04 C05 C06 C07 C08 C10 C11 C12 C13 C14 C15 C16 C17 C18 C19 C20; do
+for p in C01 C02 C03 C04 C05 C06 C07 C08 C09 C10 C11 C12 C13 C14 C15 C16 C17 C18 C19 C20; do
   s=$(date +%s)
   out=$(./check $p ${1:-quick} 2>/dev/null)
   rc=$?
